@@ -134,7 +134,8 @@ fn gen_batch(r: &mut Rng, k: usize) -> Vec<SpanRecord> {
             (0..n)
                 .map(|i| {
                     if i == pos || (i == pos2 && r.chance(1, 3)) {
-                        { let l = 7900 + r.below(20000); plain_record(r, l) }
+                        // now and then one whose encoding is just past 64 KiB (the size does not fit 16 bits)
+                        { let l = if r.chance(1, 4) { 65400 + r.below(7000) } else { 7900 + r.below(20000) }; plain_record(r, l) }
                     } else {
                         { let l = r.below(40); plain_record(r, l) }
                     }
@@ -142,8 +143,8 @@ fn gen_batch(r: &mut Rng, k: usize) -> Vec<SpanRecord> {
                 .collect()
         }
         3 => {
-            // many small spans (several datagrams)
-            let n = r.below(400);
+            // many small spans (several datagrams); sometimes more than 64 KiB in all
+            let n = if r.chance(1, 5) { 900 + r.below(400) } else { r.below(400) };
             (0..n).map(|_| { let l = r.below(30); plain_record(r, l) }).collect()
         }
         4 => vec![],
